@@ -132,9 +132,11 @@ impl Initiator {
                     // Only forwards success responses
                     if let Some((_, tx)) = self.early_list.iter().find(|(tag, _)| tag == to_tag) {
                         // Found a early dialog for the tag, forward
-                        tx.send(EarlyEvent::Response(response))
-                            .await
-                            .expect("failed to forward response, early dropped");
+                        // The early dialog may already be gone (e.g. it became a session and this
+                        // is a retransmission of its 2xx), there is nobody to hand the response to
+                        if tx.send(EarlyEvent::Response(response)).await.is_err() {
+                            log::warn!("failed to forward response, receiver of early dropped");
+                        }
 
                         continue;
                     } else if let 101..=199 = code {
